@@ -52,6 +52,7 @@ from nlopt import LD_SLSQP
 from nlopt import LN_BOBYQA
 from nlopt import LN_COBYLA
 from nlopt import LN_NEWUOA_BOUND
+from nlopt import ForcedStop
 from nlopt import RoundoffLimited
 from nlopt import opt
 from numpy import array
@@ -382,6 +383,10 @@ class Nlopt(BaseOptimizationLibrary):
         self.__add_constraints(nlopt_problem, **settings)
         try:
             nlopt_problem.optimize(x_0.real)
+        except ForcedStop:
+            # NLopt may report a termination criterion raised from a function call
+            # as a forced stop instead of re-raising it.
+            raise TerminationCriterion from None
         except (RoundoffLimited, RuntimeError) as err:
             LOGGER.exception(
                 "NLopt run failed: %s, %s",
